@@ -201,3 +201,61 @@ def run_relation(rep, cmd, inst, cases, stride=1, extra=()):
             old[k] = old.get(k, 0) + v
         rep.coverage["rewrite_kinds"] = old
     return s
+
+
+def repo_test_documents():
+    """the XML string literals of the repository's own tests (happy path first): one session per literal and one
+    session per group of literals with the same document element"""
+    import re
+    docs = []
+    for f in ("src/parser.rs", "src/lib.rs", "src/element.rs"):
+        try:
+            text = open(os.path.join("/repo", f)).read()
+        except OSError:
+            continue
+        for m in re.finditer(r'"((?:[^"\\]|\\.)*)"', text, re.S):
+            s = m.group(1)
+            if "<" not in s[:40] or ">" not in s:
+                continue
+            try:
+                s = s.replace("\\\n", "")
+                s = re.sub(r"\n\s*", lambda x: x.group(0), s)
+                s = bytes(s, "utf-8").decode("unicode_escape").encode("latin-1", "replace").decode("utf-8", "replace") if "\\" in s else s
+            except Exception:
+                continue
+            if s.lstrip().startswith("<") and len(s) < 5000:
+                docs.append(s)
+    groups = {}
+    import re as _re
+    for d in docs:
+        m = _re.search(r"<([A-Za-z_][\w:.-]*)", _re.sub(r"<\?.*?\?>|<!--.*?-->", "", d, flags=_re.S))
+        if m:
+            groups.setdefault(m.group(1), []).append(d)
+    sessions = [{"docs": [d]} for d in docs] + [{"docs": g[:6]} for g in groups.values() if len(g) > 1]
+    return sessions
+
+
+def mechanism_trace(rep, pid, sessions, elems=25):
+    """impl -> spec at the level of the mechanism: the steps recorded by the parser hooks (every reader event, the
+    snapshot, the element entered, the parent after tagging) validated by ParserTrace with all Parser invariants on.
+    A rejected step means the code no longer follows the specification's mechanism; that alone is reported as
+    drift, not as a violation (the property-level oracles decide)."""
+    docs = os.path.join(c.OUT, "cases", "%s.repo-docs.ndjson" % pid)
+    c.write_ndjson(docs, repo_test_documents())
+    trace = os.path.join(c.OUT, "traces", "%s-hooks.ndjson" % pid)
+    t = c.harness(["parser-record", "--seed", c.seed(), "--n", sessions, "--elems", elems, "--docs", docs, "--out", trace])
+    cfg = c.cfg_text(spec="TSpec", constants=dict(HashOrder=False),
+                     invariants=["TypeOK", "Exact", "Sound", "StackWF", "ResultWF", "Monotone", "NoOpOnEmptyDoc"],
+                     postcondition="Accepted")
+    acc, rej, st = c.validate_trace("ParserTrace", trace, "%s-hooks" % pid, cfg=cfg, timeout=1500)
+    drift = 0
+    for x in rej:
+        if x.get("invariant"):
+            rep.violation({"kind": "model", "module": "ParserTrace", "invariant": x["invariant"], "trace": x.get("error")},
+                          "invariant %s fails on a state of the specification reached along a recorded execution" % x["invariant"])
+        else:
+            drift += 1
+            c.log("NOTE property=%s: hook trace line %s is not a step of Parser.tla (mechanism drift): %s" % (
+                pid, x.get("line"), str(x.get("event"))[:300]))
+    rep.add(hook_events_validated=acc, hook_trace_calls=t["calls"], mechanism_drift=drift, traces_validated_against_impl=acc,
+            trace_states=st)
